@@ -1,5 +1,5 @@
 """C34 - fused functions dispatch to the matching specialisation (DESIGN 7/C34)."""
-import itertools, json, os, re
+import itertools, json, os, re, sys
 import cybuild
 
 TITLE = "Fused functions dispatch to the matching specialisation"
@@ -10,7 +10,16 @@ RULE = ("generated fused declarations (1-2 fused types, 1-3 parameters, def and 
         "argument type tags (int, bool, float, complex, None, numpy scalars, builtins, extension "
         "instances incl. Python subclasses, plain objects, numpy arrays / Cython memoryviews / Python "
         "memoryviews by dtype, ndim, layout); distinct by (declaration, argument tags); non-trivial = "
-        "at least one member of some fused type is an instance match or the call must raise")
+        "at least one member of some fused type is an instance match or the call must raise.  "
+        "Argument fetch (props/C34_args.py): signatures of 1-4 parameters mixing non-fused and fused ones "
+        "(1-2 fused types, each used once or several times) in every order, each with/without default "
+        "(literal and module-global), positional-only / keyword-only markers, *args, **kwargs, as def, cpdef, "
+        "methods of cdef and Python classes, cpdef methods, static methods: a fixed core (one per branch of the "
+        "make_fused_cpdef loop and of _unpack_argument) + random ones; calls enumerate the number of positionals "
+        "(0 .. all + surplus) x keyword/omitted for every other parameter x unknown keyword / duplicate, "
+        "selected so that every profile (dispatched parameter positional / keyword / default / missing) of a "
+        "signature occurs; plus f[key](call) for every key; distinct by (signature, call); non-trivial = a "
+        "dispatched parameter comes from a keyword or a default, or the call must raise")
 EXPLANATION = ("theorems (all declarations, all argument tag tuples): the per-parameter decision is the first "
                "member in the compiler's preference order whose Python type the argument is an instance of, "
                "then the buffer tests, then the object fallback; the selected signature accepts every examined "
@@ -20,12 +29,23 @@ EXPLANATION = ("theorems (all declarations, all argument tag tuples): the per-pa
                "the named signature or KeyError; list.sort model is a permutation.  partial: that the "
                "preference order puts the biggest numeric type first is proved for member lists on which "
                "__lt__ is a rank order (pref_okb, decidable) - mixed complex/unsigned lists are refuted, not "
-               "characterised; conversions of non-examined parameters and result values are only tested.")
+               "characterised; conversions of non-examined parameters and result values are only tested.  "
+               "Argument fetch (all signatures, all calls): every unpacking block reads the first parameter of "
+               "its fused type under its own index, name and the defaults-tuple slot 'number of earlier defaulted "
+               "parameters'; the fetched value is the value CPython's binding gives that parameter (for the "
+               "repaired block always, for the block as it is outside the two registered finding classes); hence "
+               "the whole call = the all-positional dispatcher on the bound values; an unbindable call never runs "
+               "a specialisation; the 'count only dispatch-relevant defaults' variant and the two finding classes "
+               "are refuted by witnesses.  The generated dispatcher text (captured from FusedNode) is compared "
+               "with the model's blocks for every generated signature.")
 TRUSTED = ["model of CPython 3.12 list.sort for n < 64 (count_run + binary insertion) - exercised through the "
            "generated dispatchers", "isinstance table of the argument tags (bool < int, numpy.float64 < float, "
            "numpy.complex128 < complex)", "buffer coercion (__Pyx_PyObject_to_MemoryviewSlice_*) abstracted to "
            "dtype kind/size, ndim, contiguity", "property oracle = the dispatch rules of "
-           "docs/src/userguide/fusedtypes.rst re-stated in Python in this file"]
+           "docs/src/userguide/fusedtypes.rst re-stated in Python in this file",
+           "argument fetch: bind_py = Gallina restatement of CPython's initialize_locals (compared with CPython "
+           "itself on every case through an untyped twin function); the specialisation's own argument binding "
+           "(property C24) is taken to equal CPython's"]
 ASSUMPTIONS = ["LP64, little endian, numpy importable, writable native-byte-order buffers",
                "id(MemoryViewSliceType) order w.r.t. the other type classes is read from the running compiler"]
 
@@ -240,7 +260,10 @@ def classify(d, args, exp):
                     return "ndarray_fastpath_ignores_contiguity"
     for ms, pos in fts:
         a = args[pos]
-        if a == "T" and "b" in ms and any(kind(t) == "int" and rank(t) > 4 for t in ms):
+        # an int member that precedes bint in the preference order: wider ones sort before it, members of
+        # the same rank (int, unsigned int) are incomparable with bint and keep their declared place
+        if a == "T" and "b" in ms and any(kind(t) == "int" and (rank(t) > 4 or (rank(t) == 4 and ms.index(t) < ms.index("b")))
+                                          for t in ms):
             return "bool_arg_wider_int_beats_bint"
         if a[0] == "X":
             mro = a[1:].split(".")
@@ -595,7 +618,12 @@ def run(ctx):
     helper = [m for m in modnames if "mem" in m][0]
     specs = [dict(name=m, source=gen_module(groups[m], "mem" in m), workdir=ctx.workdir, cflags=["-O0"])
              for m in modnames]
+    # argument-fetch part of the dispatcher (defaults / keywords / parameter kinds): props/C34_args.py
+    import props.C34_args as argmod
+    argpart = argmod.ArgsPart(ctx)
+    argpart.start_dump()          # translates (capturing the dispatcher text) and compiles its own modules
     built = cybuild.build_many(specs, jobs=8)
+    argpart.thread.join()
     for (so, err), sp in zip(built, specs):
         if err is not None:
             ctx.corr_break("build " + sp["name"], sp["source"][:3000], str(err)[:1500], "module builds")
@@ -707,6 +735,7 @@ def run(ctx):
             exp = ["|".join(key_text(t) for t in s) for s in itertools.product(*[ms for ms, _ in d["fts"]])]
             if "e" in r or r["keys"] != exp:
                 ctx.fail("signatures_dict_not_the_product_in_declared_order", inp, r, exp)
+    argpart.finish(sys.modules[__name__], bits)
     ctx.extra["declarations"] = sum(len(v) for v in groups.values())
     ctx.extra["modules"] = modnames
 
